@@ -1056,6 +1056,10 @@ func checkTdx(tb ev.TB, c *tdxCase) outcome {
 	switch {
 	case tdx == nil:
 		other = "no-tdx"
+	case len(rows) == 0:
+		// nothing endorsed for this RAM size (or no rows at all): whether that is an error or an empty
+		// allow-list is property C02's business; C17 tolerates both and asserts nothing that depends on it
+		other = "no-rows"
 	case !ow && c.EmptyNonNilAllow && !c.BaseNil:
 		other = "empty-nonnil-allowlist"
 	}
@@ -1093,7 +1097,7 @@ func checkTdx(tb ev.TB, c *tdxCase) outcome {
 			if ow {
 				key = "C17/tdx-error-despite-overwrite"
 			}
-			c.violate(tb, key, "TdxPolicy failed although the base has no MRTD allow-list to protect (or overwrite is on) and the endorsement carries tdx: %v", err)
+			c.violate(tb, key, "TdxPolicy failed although the base has no MRTD allow-list to protect (or overwrite is on) and the endorsement lists MRTDs for the RAM size: %v", err)
 			return finish("known-finding", false)
 		}
 		if conflict {
@@ -1163,7 +1167,10 @@ var ramPool = []uint32{1, 2, 4, 8, 16, 32, 64, 128, 256, 512, 1024, 3, 0, math.M
 func genTdxCase(t *rapid.T) *tdxCase {
 	c := &tdxCase{}
 	tdx := &epb.VMTdx{Svn: rapid.SampledFrom(svnPool).Draw(t, "svn")}
-	nrows := rapid.IntRange(0, 6).Draw(t, "nrows")
+	nrows := rapid.IntRange(1, 6).Draw(t, "nrows")
+	if pct(t, "norows", 5) {
+		nrows = 0
+	}
 	small := rapid.Bool().Draw(t, "fewsizes") // few distinct sizes: several rows per size (early_accept variants)
 	for i := 0; i < nrows; i++ {
 		var ram uint32
@@ -1190,9 +1197,9 @@ func genTdxCase(t *rapid.T) *tdxCase {
 	// RAM
 	rr := roll(t, "ramkind")
 	switch {
-	case rr < 20 || (nrows == 0 && rr < 92):
+	case rr < 20 || (nrows == 0 && rr < 94):
 		c.RAMGiB = 0
-	case rr < 92:
+	case rr < 94:
 		c.RAMGiB = int(tdx.Measurements[rapid.IntRange(0, nrows-1).Draw(t, "ramidx")].RamGib)
 	default:
 		c.RAMGiB = int(rapid.SampledFrom(append([]uint32{5, 6, 48}, ramPool...)).Draw(t, "ramany"))
@@ -1250,7 +1257,7 @@ func genTdxCase(t *rapid.T) *tdxCase {
 	return c
 }
 
-const tdxRule = "base checkconfig.Policy generated field by field from its descriptor (header_policy and td_quote_body_policy independently absent / present, every inner scalar/bytes/repeated field independently set or unset with go-tdx-guest-legal lengths; half of the set allow-lists equal to what the endorsement yields; 10% unknown fields; 8% nil base; 4% empty-but-non-nil any_mr_td) x endorsement tdx rows (0-6 rows, repeated RAM sizes with both early_accept values, rare empty MRTD, 4% no tdx) x RAMGiB {0, a listed size, 8% unlisted} x Overwrite. Oracle: (1) base proto.Equal to the snapshot, result a different object, scrambling the result leaves the base intact; (2) without overwrite a non-empty base any_mr_td equals the result's or an error was returned; (3) for RAMGiB 0 or a listed size any_mr_td == the endorsement's MRTDs for that size (as a set; nothing asserted for unlisted sizes: C02); (4) every other field (header policy, the other quote-body fields, unknown fields) proto.Equal to the base's, where an absent quote body equals a present empty one; (5) an error only when the base carries an allow-list without overwrite or the endorsement has no tdx. non-trivial = base any_mr_td non-empty; distinct = (set-field mask, outcome class, options, rows selected/total)"
+const tdxRule = "base checkconfig.Policy generated field by field from its descriptor (header_policy and td_quote_body_policy independently absent / present, every inner scalar/bytes/repeated field independently set or unset with go-tdx-guest-legal lengths; half of the set allow-lists equal to what the endorsement yields; 10% unknown fields; 8% nil base; 4% empty-but-non-nil any_mr_td) x endorsement tdx rows (0-6 rows, repeated RAM sizes with both early_accept values, rare empty MRTD, 4% no tdx) x RAMGiB {0, a listed size, 6% unlisted} x Overwrite. Oracle: (1) base proto.Equal to the snapshot, result a different object, scrambling the result leaves the base intact; (2) without overwrite a non-empty base any_mr_td equals the result's or an error was returned; (3) for RAMGiB 0 or a listed size any_mr_td == the endorsement's MRTDs for that size (as a set; nothing asserted for unlisted sizes: C02); (4) every other field (header policy, the other quote-body fields, unknown fields) proto.Equal to the base's, where an absent quote body equals a present empty one; (5) an error only when the base carries an allow-list without overwrite, the endorsement has no tdx, or it lists no row for the RAM size (tolerated, not demanded). non-trivial = base any_mr_td non-empty; distinct = (set-field mask, outcome class, options, rows selected/total)"
 
 func TestTdxDerive(t *testing.T) {
 	const name = "tdx/derive"
